@@ -3259,6 +3259,271 @@ fn scenario_degenerate(work: &str, out: &mut Out, total: &mut BTreeMap<String, u
 }
 
 
+/// C13, pool side ("a transaction spending an immature coinbase is not admitted to the pool before
+/// that"): admission through the real `TransactionPool::add_to_pool` over a real chain, with the
+/// inputs in BOTH representations - commit-only and features-and-commit - and, for the latter, with
+/// the input's own feature byte honest or LYING (a coinbase output labelled Plain, a plain output
+/// labelled Coinbase).  The label is untrusted: the decision must be the one the chain's unspent set
+/// dictates.  At every head height H (the chain grows block by block) the coinbases of the blocks
+/// H, H-1 (immature for the next block: refused with ImmatureCoinbase in every representation, stem
+/// and fluff, every source) and H-2, H-3 (mature: admitted) are spent; young plain outputs labelled
+/// Coinbase are admitted; kernels locked at next+1 are refused, at next admitted; NRD kernels one
+/// below / at their relative height.  Failures are `#ORACLE-FAIL C13 …` lines.
+fn scenario_maturity(work: &str, out: &mut Out, total: &mut BTreeMap<String, u64>, rounds: usize) {
+	let mut rng = Rng::new(seed_from_env().wrapping_mul(29).wrapping_add(801));
+	let mut w = World::new(work, "maturity", Cfg { max_pool: 50, max_stem: 50, mine_w: 250 });
+	print_cfg(&w, out);
+	warm_up(&mut w, out, &mut rng, 10);
+	w.print_head(out);
+	w.obs(out, "start");
+	let w11 = World::weight_of(1, 1);
+	let srcs = [TxSource::PushApi, TxSource::Broadcast, TxSource::Fluff, TxSource::EmbargoExpired, TxSource::Deaggregate];
+	let forms = [Form::V3, Form::V2, Form::V2WrongFeatures];
+	// (stem, relay accepts)
+	let paths = [(false, true), (true, true), (true, false)];
+	let mut combo = 0usize;
+	let mut src_k = 0usize;
+	// NRD reference kernels: (slot, height of the last occurrence on the chain)
+	let mut nrd_refs: Vec<(usize, u64)> = vec![];
+	let fail = |out: &mut Out, w: &World, what: &str, lhs: &str, res: &str, detail: &str| {
+		out.raw(&format!(
+			"#ORACLE-FAIL C13 {} hist={} head height {} (next block {}): {} => {}; {}",
+			what,
+			w.name,
+			w.kit.blks[w.head].height,
+			w.kit.blks[w.head].height + 1,
+			lhs,
+			res,
+			detail
+		));
+	};
+	for round in 0..rounds {
+		// grow the chain: a block that splits a plain (or old coinbase) output into eight young plain
+		// outputs, or - every other round - the mineable set; in round 1 the NRD reference kernels
+		let mut txs: Vec<Transaction> = vec![];
+		if round == 1 {
+			let free = w.free_utxo();
+			let plain2: Vec<usize> = free.iter().cloned().filter(|o| !w.kit.outs[*o].coinbase).take(2).collect();
+			for (slot, o) in plain2.iter().enumerate() {
+				let v = w.kit.outs[*o].value;
+				let fee = w11 * FEE_BASE * 2;
+				let spec = TxSpec { inputs: vec![*o], outputs: vec![(v - fee, None)], kernel: KSpec::Nrd(fee, 1, slot + 5) };
+				if let Ok(k0) = w.kit.build_tx(&spec) {
+					txs.push(k0);
+				}
+			}
+		} else if round % 2 == 0 {
+			let free = w.free_utxo();
+			// prefer an old coinbase (mature for a long time) so that the fresh ones stay for the tests
+			let h = w.kit.blks[w.head].height;
+			let old: Vec<usize> = w
+				.node_utxo()
+				.iter()
+				.filter(|(o, hh, cb)| free.contains(o) && (!*cb || *hh + MATURITY + 2 <= h + 1))
+				.map(|x| x.0)
+				.collect();
+			if let Some(o) = old.first().cloned() {
+				if let Some(t) = w.spend(&[o], 8, World::weight_of(1, 8) * FEE_BASE, None) {
+					txs.push(t);
+				}
+			}
+		} else {
+			txs = w.pool.prepare_mineable_transactions().unwrap_or_default();
+		}
+		let parent = w.head;
+		let id = w.build_block(parent, 1, &txs).or_else(|| w.build_block(parent, 1, &[]));
+		match id {
+			Some(id) => {
+				if round == 1 && !txs.is_empty() && w.kit.blks[id].block.kernels().len() > 1 {
+					let hh = w.kit.blks[id].height;
+					nrd_refs = (0..txs.len()).map(|k| (k + 5, hh)).collect();
+				}
+				w.deliver(out, id);
+			}
+			None => continue,
+		}
+		let h = w.kit.blks[w.head].height;
+		let next = h + 1;
+		let utxo = w.node_utxo();
+		let spent = w.pool_spent();
+		// --- coinbases of the last four blocks
+		for c in [h, h.saturating_sub(1), h.saturating_sub(2), h.saturating_sub(3)] {
+			let cb = utxo.iter().find(|(o, hh, cb)| *cb && *hh == c && !spent.contains(o)).map(|x| x.0);
+			let o = match cb {
+				Some(o) => o,
+				None => continue,
+			};
+			let mature = next >= c + MATURITY;
+			let tx = match w.spend(&[o], 1, w11 * FEE_BASE * 2, None) {
+				Some(t) => t,
+				None => continue,
+			};
+			let t = w.add_tx(out, tx, vec![], &format!("maturity:coinbase-of-head-{}", h - c));
+			let list: Vec<(Form, (bool, bool))> = if mature {
+				// admitted once: one representation / path per coinbase, rotating
+				combo += 1;
+				vec![(forms[combo % 3], paths[(combo / 3) % 3])]
+			} else {
+				forms.iter().flat_map(|f| paths.iter().map(move |p| (*f, *p))).collect()
+			};
+			for (form, (stem, ok)) in list {
+				src_k += 1;
+				let src = srcs[src_k % srcs.len()];
+				let res = w.submit_form(out, t, src, stem, ok, form);
+				let lhs = format!(
+					"coinbase o{} of block height {} spent with inputs {} ({}) src={} stem={} relay-accepts={}",
+					o,
+					c,
+					form.tag(),
+					match form {
+						Form::V3 => "commit only",
+						Form::V2 => "features and commit, labelled Coinbase",
+						_ => "features and commit, LABELLED PLAIN",
+					},
+					src_letter(src),
+					stem,
+					ok
+				);
+				w.stat(&format!(
+					"maturity:coinbase:{}:{}:{}:{}",
+					if mature { "mature" } else { "immature" },
+					form.tag(),
+					if stem { "stem" } else { "fluff" },
+					res
+				));
+				if !mature && res == "ok" {
+					fail(out, &w, "pool-admits-spend-of-immature-coinbase", &lhs, &res, &format!("matures at height {}", c + MATURITY));
+				} else if !mature && res != "err:ImmatureCoinbase" {
+					fail(out, &w, "pool-refuses-immature-coinbase-spend-for-another-reason", &lhs, &res, "expected ImmatureCoinbase");
+				} else if mature && res != "ok" {
+					fail(out, &w, "pool-refuses-spend-of-mature-coinbase", &lhs, &res, &format!("mature since height {}", c + MATURITY));
+				}
+			}
+		}
+		// --- a young plain output labelled Coinbase: no maturity applies
+		let spent = w.pool_spent();
+		let young: Vec<usize> = utxo.iter().filter(|(o, hh, cb)| !*cb && *hh + 1 >= h && !spent.contains(o)).map(|x| x.0).collect();
+		let mut young_it = young.into_iter();
+		for form in [Form::V2WrongFeatures, Form::V2] {
+			if let Some(o) = young_it.next() {
+				if let Some(tx) = w.spend(&[o], 1, w11 * FEE_BASE * 2, None) {
+					let t = w.add_tx(out, tx, vec![], "maturity:young-plain-output");
+					combo += 1;
+					let (stem, ok) = paths[combo % 3];
+					src_k += 1;
+					let src = srcs[src_k % srcs.len()];
+					let res = w.submit_form(out, t, src, stem, ok, form);
+					w.stat(&format!("maturity:young-plain:{}:{}:{}", form.tag(), if stem { "stem" } else { "fluff" }, res));
+					if res != "ok" {
+						let lhs = format!(
+							"plain o{} created at height >= {} spent with inputs {} ({}) src={} stem={}",
+							o,
+							h.saturating_sub(1),
+							form.tag(),
+							if form == Form::V2WrongFeatures { "features and commit, LABELLED COINBASE" } else { "features and commit, labelled Plain" },
+							src_letter(src),
+							stem
+						);
+						fail(out, &w, "pool-refuses-spend-of-plain-output", &lhs, &res, "a plain output has no maturity, whatever the input claims");
+					}
+				}
+			}
+		}
+		// --- height-locked kernels: next + 1 refused everywhere, next admitted
+		let mut plain_old: Vec<usize> =
+			w.free_utxo().into_iter().filter(|o| !w.kit.outs[*o].coinbase && !w.pool_spent().contains(o)).collect();
+		for lock in [next + 1, next] {
+			let o = match plain_old.pop() {
+				Some(o) => o,
+				None => break,
+			};
+			let fee = w11 * FEE_BASE * 2;
+			let f = KernelFeatures::HeightLocked { fee: FeeFields::new(0, fee).unwrap(), lock_height: lock };
+			let tx = match w.spend(&[o], 1, fee, Some(f)) {
+				Some(t) => t,
+				None => continue,
+			};
+			let t = w.add_tx(out, tx, vec![], &format!("maturity:lock-height:next+{}", lock - next));
+			let list: Vec<(Form, (bool, bool))> = if lock > next {
+				vec![(Form::V3, paths[0]), (Form::V2, paths[1]), (Form::V2WrongFeatures, paths[2]), (Form::V2, paths[0]), (Form::V3, paths[1])]
+			} else {
+				combo += 1;
+				vec![(forms[combo % 3], paths[(combo / 3) % 3])]
+			};
+			for (form, (stem, ok)) in list {
+				src_k += 1;
+				let src = srcs[src_k % srcs.len()];
+				let res = w.submit_form(out, t, src, stem, ok, form);
+				w.stat(&format!("maturity:lock:{}:{}:{}", if lock > next { "beyond-next" } else { "at-next" }, if stem { "stem" } else { "fluff" }, res));
+				let lhs = format!("kernel locked at height {} inputs {} src={} stem={}", lock, form.tag(), src_letter(src), stem);
+				if lock > next && res != "err:ImmatureTransaction" {
+					fail(out, &w, "pool-admits-transaction-locked-beyond-the-next-block", &lhs, &res, "expected ImmatureTransaction");
+				} else if lock <= next && res != "ok" {
+					fail(out, &w, "pool-refuses-transaction-whose-lock-height-is-reached", &lhs, &res, "");
+				}
+			}
+		}
+		// --- NRD kernels repeating a confirmed excess: relative height one above / at the distance
+		let ver = w.node.head_header().map(|x| x.version.0).unwrap_or(0);
+		if ver >= 4 {
+			let mut refs_new = nrd_refs.clone();
+			for (k, (slot, h0)) in nrd_refs.iter().enumerate() {
+				let d = next - h0;
+				for rel in [d + 1, d] {
+					// the admitted one goes last and only every third round (it moves the reference)
+					if rel == d && (round % 3 != k % 3) {
+						continue;
+					}
+					let o = match plain_old.pop() {
+						Some(o) => o,
+						None => break,
+					};
+					let v = w.kit.outs[o].value;
+					let fee = w11 * FEE_BASE * 2;
+					let spec = TxSpec { inputs: vec![o], outputs: vec![(v - fee, None)], kernel: KSpec::Nrd(fee, rel, *slot) };
+					let tx = match w.kit.build_tx(&spec) {
+						Ok(t) => t,
+						Err(_) => continue,
+					};
+					let t = w.add_tx(out, tx, vec![], &format!("maturity:nrd:d+{}", rel - d));
+					combo += 1;
+					let (stem, ok) = paths[combo % 3];
+					let form = forms[(combo / 3) % 3];
+					src_k += 1;
+					let src = srcs[src_k % srcs.len()];
+					// another kernel with this excess may already sit in the pool (admitted earlier)
+					let pooled_same = w.pool.txpool.entries.iter().chain(w.pool.stempool.entries.iter()).any(|e| {
+						e.tx.kernels().iter().any(|x| x.excess == w.txs[t].tx.kernels()[0].excess)
+					});
+					let res = w.submit_form(out, t, src, stem, ok, form);
+					w.stat(&format!("maturity:nrd:{}:{}:{}", if rel > d { "too-recent" } else { "at-distance" }, if stem { "stem" } else { "fluff" }, res));
+					let lhs = format!(
+						"NRD kernel, relative height {}, excess last on the chain at height {} inputs {} src={} stem={}",
+						rel, h0, form.tag(), src_letter(src), stem
+					);
+					if rel > d && res == "ok" {
+						fail(out, &w, "pool-admits-nrd-kernel-before-its-relative-height", &lhs, &res, "");
+					} else if rel <= d && res != "ok" && !pooled_same {
+						fail(out, &w, "pool-refuses-nrd-kernel-at-its-relative-height", &lhs, &res, "");
+					}
+					let _ = &mut refs_new;
+				}
+			}
+			// occurrences that got mined move the reference: recompute from the chain state
+			if let Some(st) = w.states.get(&w.head) {
+				for r in refs_new.iter_mut() {
+					let ex = nrd_excess_tag(&w.kit.kc, r.0);
+					if let Some((_, hh)) = st.nrd.iter().find(|(e, _)| *e == ex) {
+						r.1 = *hh;
+					}
+				}
+			}
+			nrd_refs = refs_new;
+		}
+	}
+	merge_stats(&w, total);
+}
+
 /// Header-first propagation: the node has accepted the HEADERS of the next two blocks but not the
 /// blocks.  Transactions sitting exactly in the gap - lock height, coinbase maturity and NRD
 /// relative height satisfied at header_head + 1 but not at (body) head + 1 - must be refused until
@@ -3629,6 +3894,10 @@ fn main() {
 	let args: Vec<String> = std::env::args().collect();
 	let mode = args.get(1).map(|s| s.as_str()).unwrap_or("all").to_string();
 	let mut jobs: Vec<(String, Job)> = vec![];
+	if mode == "maturity" {
+		let rounds = if thorough { 16 } else { 8 };
+		jobs.push(("maturity".into(), Box::new(move |w, o, t| scenario_maturity(w, o, t, rounds))));
+	}
 	if mode == "all" || mode == "scenarios" {
 		jobs.push(("evict-witness".into(), Box::new(|w, o, t| scenario_evict_witness(w, o, t))));
 		jobs.push(("evict-chain".into(), Box::new(|w, o, t| scenario_evict_chain(w, o, t))));
